@@ -236,6 +236,7 @@ class Ex(object):
         self.max_visits = 64          # unwinding bound for symbolic loops
         self.snap_mode = 'strict'     # 'strict' | 'lenient' | 'exact'
         self.nonsimple = []           # (function, type, value) of constants that could not be snapped
+        self.dimg = {}                # 'lenient-sym' mode: symbol -> (intended value term, actual value term) of double-image constants
         self.cur_fn = None
         self.depth = 0
         self.trace_calls = None
@@ -354,21 +355,33 @@ class Ex(object):
             hit = tm.snap(v, ty)
             _snap_cache[ck] = hit if hit is not None else False
         r = hit if hit is not False else None
-        if r is None and self.snap_mode == 'lenient' and ty == 'f80':
+        lenient = self.snap_mode in ('lenient', 'lenient-sym')
+
+        def image(intended):
+            # 'lenient-sym' (C09): the constant is a symbol whose intended and actual values are kept side by side
+            if self.snap_mode != 'lenient-sym':
+                return intended
+            k = len(self.dimg) + 1
+            sy = tm.sym('dimg#%d' % k)
+            self.dimg[sy] = (intended, tm.const(v))
+            return sy
+        if r is None and lenient and ty == 'f80':
             r2 = tm.snap(v, 'f64')
             if r2 is not None and tm.round_to(r2, 53) == v:
                 self.nonsimple.append((self.cur_fn, ty, v, 'double-image', r2))
-                return tm.const(r2)
-        if r is None and self.snap_mode == 'lenient':
+                return image(tm.const(r2))
+        if r is None and lenient:
             # a rounding of q*pi or q/pi (M_PI style literals): the intended value is the multiple of pi; in long double code a literal that is
             # only the DOUBLE rounding of it is recorded like a double-image constant
             for ty2 in ((ty,) if ty != 'f80' else ('f80', 'f64')):
                 hp = tm.snap_pi(v, ty2)
                 if hp is not None and (ty2 == ty or tm.round_to(v, 53) == v):
                     q, inverse = hp
+                    val_ = (tm.const(q) / tm.PI) if inverse else (tm.const(q) * tm.PI)
                     if ty2 != ty:
                         self.nonsimple.append((self.cur_fn, ty, v, 'double-image', 'pi*%s' % q if not inverse else '%s/pi' % q))
-                    return (tm.const(q) / tm.PI) if inverse else (tm.const(q) * tm.PI)
+                        return image(val_)
+                    return val_
         if r is None:
             self.nonsimple.append((self.cur_fn, ty, v, 'nonsimple', None))
             return tm.const(v)
